@@ -29,6 +29,12 @@ def master_case(ctx, idx, rng):
             ctx.count('history_aborted')
             return
         d = h.d
+        # (half of the cases) the last thing the operator did: a server with a trait nobody knew, then an allocation that
+        # requires it - both events are still pending when the master gets to them
+        new_trait = None
+        if not getattr(d, 'master_died', None) and rng.random() < 0.5:
+            d.rng = ctx.case_rng(idx, 'newtrait')
+            new_trait = d.op_new_trait_then_allocation()
         quiet = False
         for _ in range(6):
             d.settle_delivery()
@@ -55,7 +61,30 @@ def master_case(ctx, idx, rng):
             man.pop('identity_group', None)
             man.pop('schedule_once', None)
             man['priority'] = prng.choice([1, 10, 50, 100])
-            cands = [s for s in sorted(H.servers) if H.servers[s]['label'] == '_default']
+            # where the probe goes: the default allocation of a fresh proid, or (a third; always for the first probes
+            # after a trait was introduced) an application name that the allocations in force assign to an existing
+            # allocation - one without a utilisation cap on its path, whose required traits the probe inherits
+            app_id, akey = 'probe.p', ('_default', ('_default', 'probe'))
+            ta = getattr(d, 'trait_alloc', None) if new_trait else None
+            if ta is not None and k < 3:
+                names = [ta['app_id']]
+            elif prng.random() < 0.35:
+                names = [prng.choice(d.appnames)]
+            else:
+                names = []
+            for nm in names:
+                if any(mdrv.glob_match(b, nm) for b in d.Z['blacklist']):
+                    continue            # a blacked-out application is not placed whatever fits
+                for pat, _p, key in d.assignments:
+                    if pat == nm or (pat.endswith('*') and nm.startswith(pat[:-1])):
+                        path_ok = all((H.allocs.get((key[0], key[1][:i])) or {}).get('maxutil') is None
+                                      for i in range(1, len(key[1]) + 1))
+                        if path_ok and key in H.allocs:
+                            app_id, akey = nm, key
+                        break
+            atraits = H.allocs[akey]['traits'] if akey in H.allocs else 0
+            cands = [s for s in sorted(H.servers) if H.servers[s]['label'] == akey[0]
+                     and (H.servers[s]['traits'] & atraits) == atraits]
             mode = prng.choice(['free', 'free', 'free-1', 'free+1', 'asis'])
             if mode.startswith('free') and cands:
                 s = prng.choice(cands)
@@ -70,9 +99,13 @@ def master_case(ctx, idx, rng):
                         demand[i] += 1
                     man.update(memory='%dM' % demand[0], cpu='%d%%' % demand[1], disk='%dM' % demand[2])
             lease = mdrv.own_secs(man.get('lease', '0s'))
-            spec = dict(name='probe', demand=demand, traits=mdrv.trait_bits(man.get('traits')), lease=lease,
+            spec = dict(name='probe', demand=demand, traits=mdrv.trait_bits(man.get('traits')) | atraits, lease=lease,
                         affinity=man['affinity'], limits=dict(man.get('affinity_limits', {})), group=None,
-                        alloc=('_default', ('_default', 'probe')))
+                        alloc=akey)
+            if app_id != 'probe.p':
+                ctx.count('master_probe_into_existing_allocation')
+                if ta is not None and app_id == ta['app_id']:
+                    ctx.count('master_probe_into_allocation_requiring_just_introduced_trait')
             # reboot time unknown for a server (no published record) -> do not claim a fit for leased probes there
             if lease:
                 for s in H.servers.values():
@@ -85,7 +118,7 @@ def master_case(ctx, idx, rng):
             def child():
                 d.srv.before_write = None
                 d.cutter = None
-                ids = d.api.create_apps(d.admin, 'probe.p', man, 1)
+                ids = d.api.create_apps(d.admin, app_id, man, 1)
                 d.Z['apps'][ids[0]] = dict(man=dict(man), demand=demand)
                 d.settle_delivery()
                 cengine.MON.reset_cycle()
@@ -99,7 +132,8 @@ def master_case(ctx, idx, rng):
                 if res:
                     ctx.notes.append(res['harness_error'] + res.get('tb', ''))
                 continue
-            desc = dict(history=idx, level='master', probe=dict(manifest=man, demand=demand), fits_on=fit, result=res)
+            desc = dict(history=idx, level='master', probe=dict(manifest=man, demand=demand, app=app_id, allocation=list(akey)),
+                        fits_on=fit, result=res)
             if res['consulted']:
                 ctx.count('probe_tracker_consulted')
             if fit is not None:
